@@ -4,6 +4,7 @@ import (
 	"bytes"
 	"encoding/binary"
 	"fmt"
+	"io"
 
 	"github.com/foxboron/go-uefi/efi/signature"
 
@@ -15,12 +16,25 @@ func init() {
 	register("C08", "exploration", checkC08)
 	regEntry("esl.decode", func(c *WCase, res *WResult) {
 		rd := bytes.NewReader(c.In)
-		db, err := signature.ReadSignatureDatabase(rd)
+		var src io.Reader = rd
+		pc := &pullCounter{r: rd}
+		if c.P["reader"] == "plain" {
+			src = pc // an io.Reader and nothing else (no ByteReader, no Len)
+		}
+		db, err := signature.ReadSignatureDatabase(src)
 		if err != nil {
 			res.Err = err.Error()
 			return
 		}
-		res.Val = fmt.Sprintf("rem=%d %s", rd.Len(), canonLib(db))
+		rem := rd.Len()
+		if c.P["reader"] == "plain" {
+			// bytes pulled from the source but not part of any list are "dropped", not "left"
+			rem = 0
+			if pc.n != len(c.In) {
+				rem = len(c.In) - pc.n
+			}
+		}
+		res.Val = fmt.Sprintf("rem=%d %s", rem, canonLib(db))
 	})
 }
 
@@ -95,6 +109,20 @@ func eslMutants(base []byte, name string, r *mon.Run, rngLabel int) []eslMut {
 				add(m, "field", fmt.Sprintf("%s@list%d", fname, min2(li, 2)), valClass(v, orig, rem))
 			}
 		}
+		// HeaderSize = k × SignatureSize together with as many stray bytes behind the list
+		if li == len(ref)-1 && l.SigSize >= 16 && l.SigSize < 4096 {
+			for _, k := range []uint32{1, 2} {
+				m := append([]byte(nil), base...)
+				binary.LittleEndian.PutUint32(m[off+20:], k*l.SigSize)
+				stray := make([]byte, k*l.SigSize)
+				rng.Read(stray)
+				add(append(m, stray...), "headersize+stray", fmt.Sprintf("list%d", min2(li, 2)), fmt.Sprint(k))
+				m2 := append([]byte(nil), base...)
+				binary.LittleEndian.PutUint32(m2[off+20:], k*l.SigSize)
+				binary.LittleEndian.PutUint32(m2[off+16:], l.ListSize+k*l.SigSize)
+				add(append(m2, stray...), "headersize+listsize+stray", fmt.Sprintf("list%d", min2(li, 2)), fmt.Sprint(k))
+			}
+		}
 		// ListSize not a multiple of the signature size
 		for _, d := range []int{1, -1, 7, 15, -15} {
 			m := append([]byte(nil), base...)
@@ -166,9 +194,28 @@ func checkC08(r *mon.Run) {
 		}
 		muts = append(muts, eslMut{in: b, kind: "random", base: "random", vclass: fmt.Sprint(len(b) / 28)})
 	}
+	// list boundaries exactly on round sizes (a read cap placed there would read as a clean end)
+	for _, cap := range []int{1 << 16, 1 << 20, 1 << 24} {
+		if cap > 1<<20 && !r.Thorough() && r.Seed%2 == 0 {
+			continue
+		}
+		first := refesl.List{Type: refesl.X509Type, Entries: []refesl.Entry{{Data: make([]byte, cap-28-16)}}}
+		tail, _, _ := genESLStream(mon.Rand(r.Seed, "C08", "cap", cap), 2)
+		if len(tail) == 0 {
+			tail = refesl.Encode([]refesl.List{{Type: refesl.SHA256Type, Entries: []refesl.Entry{{Data: make([]byte, 32)}}}})
+		}
+		whole := append(refesl.Encode([]refesl.List{first}), tail...)
+		muts = append(muts, eslMut{in: whole, kind: "valid-with-boundary-at", field: fmt.Sprint(cap), base: "generated"})
+		muts = append(muts, eslMut{in: whole[:len(whole)-1], kind: "truncate-after-boundary-at", field: fmt.Sprint(cap), base: "generated"})
+		muts = append(muts, eslMut{in: append(append([]byte(nil), whole...), 1, 2, 3), kind: "garbage-after-boundary-at", field: fmt.Sprint(cap), base: "generated"})
+	}
 	cases := make([]WCase, len(muts))
 	for i, m := range muts {
 		cases[i] = WCase{Entry: "esl.decode", In: m.in}
+		if i%2 == 1 && len(m.in) < 1<<20 {
+			cases[i].P = map[string]string{"reader": "plain"}
+			muts[i].kind += "/plain-reader"
+		}
 	}
 	res := runBatches(r, cases, 400, 16)
 	for i, m := range muts {
